@@ -124,6 +124,26 @@ def o_run(rng, op):
                 preempt=rng.choice(PREEMPT), **{"yield": rng.randint(0, 1)})
 
 
+BE_TARGET = "s390x-unknown-linux-gnu"
+
+
+def x_run(rng):
+    """Cross-size: a short cycle that contains one of the LARGEST tables (n = 11, 12) next to smaller ones, a few
+    repetitions — what a draw of one size leaves behind for a draw of another size (the swarm runs trim
+    n = 12 away to stay in budget, and the one-size-at-a-time runs never mix)."""
+    big = rng.choice([12, 12, 11])
+    cyc = [(rng.choice("LS"), big)] + [(rng.choice("LS"), rng.choice([0, 3, 5, 6, 7, 8, 9, 10, 11])) for _ in range(rng.choice([1, 2, 3]))]
+    rng.shuffle(cyc)
+    k, m = rng.choice([(1, 0), (0, 1), (2, 0), (1, 1)])
+    return _job("X", rng, K=k, main=m, D=rng.choice([3, 4, 6]), sizes=sorted(set(n for _, n in cyc)), cycle=cyc, types="both",
+                warm=rng.randint(0, 1), preempt=rng.choice(PREEMPT), release=1 if rng.random() < 0.3 else 0, **{"yield": rng.randint(0, 1)})
+
+
+def b_run(rng, typ, n):
+    """Big-endian lane: the single-thread clause interpreted for a big-endian target (s390x)."""
+    return _job("B", rng, K=1, main=0, warm=rng.randint(0, 1), D=256, sizes=[n], types=typ, preempt=rng.choice(PREEMPT), target=BE_TARGET)
+
+
 def make_plan(seed, tier):
     rng = random.Random(seed)
     jobs = []
@@ -162,6 +182,18 @@ def make_plan(seed, tier):
             jobs.append(c_run(rng))
         # T — more than 255 threads over the life of the process
         jobs.append(t_run(rng, 16, 17))
+        # X — cross-size cycles around the largest tables
+        for _ in range(8):
+            jobs.append(x_run(rng))
+        # B — big-endian target: every single-word size and the first multi-word sizes, both types, plus two swarm runs
+        for typ in ("lut", "static"):
+            for n in range(9):
+                jobs.append(b_run(rng, typ, n))
+        for _ in range(2):
+            j = s_run(rng, budget_words=1200)
+            j["kind"], j["target"] = "B", BE_TARGET
+            j.pop("release", None)
+            jobs.append(j)
         n_s = 64
     else:
         for typ, n in combos:
@@ -185,6 +217,16 @@ def make_plan(seed, tier):
             jobs.append(c_run(rng))
         for k, g in ((16, 17), (16, 33), (8, 40), (4, 70), (2, 130), (1, 260)):
             jobs.append(t_run(rng, k, g))
+        for _ in range(64):
+            jobs.append(x_run(rng))
+        for typ in ("lut", "static"):
+            for n in range(13):
+                jobs.append(b_run(rng, typ, n))
+        for _ in range(16):
+            j = s_run(rng, budget_words=1200)
+            j["kind"], j["target"] = "B", BE_TARGET
+            j.pop("release", None)
+            jobs.append(j)
         # W — wide and long: 16k single-word draws under contention (several 64 KiB-of-output boundaries of any
         # process-wide generator state fall inside the run)
         for i in range(8):
